@@ -1,5 +1,437 @@
-import IgrisModel.C08.Model
+import IgrisModel.C08.Spec
 namespace Igris.C08
 open Igris.Proto
+
+/-! ## memory basics -/
+
+@[simp] theorem rd_eq (m : Mem) (a : Ptr) : rd m a = m a := rfl
+
+theorem wr_some {m : Mem} {a : Ptr} {v : Byte} (h : (m a).isSome) :
+    wr m a v = some (fun j => if j = a then some v else m j) := by
+  unfold wr
+  cases hm : m a with
+  | none => simp [hm] at h
+  | some x => rfl
+
+theorem wr_eq_some {m m' : Mem} {a : Ptr} {v : Byte} (h : wr m a v = some m') :
+    (m a).isSome ∧ m' = fun j => if j = a then some v else m j := by
+  unfold wr at h
+  cases hm : m a with
+  | none => simp [hm] at h
+  | some x => simp [hm] at h; simp [h]
+
+theorem Holds.nil (m : Mem) (a : Ptr) : Holds m a [] := by
+  intro i h; simp at h
+
+theorem holds_cons {m : Mem} {a : Ptr} {b : Byte} {l : List Byte} :
+    Holds m a (b :: l) ↔ m a = some b ∧ Holds m (a + 1) l := by
+  constructor
+  · intro h
+    refine ⟨by simpa using h 0 (by simp), ?_⟩
+    intro i hi
+    have := h (i + 1) (by simp; omega)
+    simpa [Nat.add_assoc, Nat.add_comm 1 i] using this
+  · rintro ⟨h0, h1⟩ i hi
+    cases i with
+    | zero => simpa using h0
+    | succ i =>
+      have := h1 i (by simp at hi; omega)
+      simpa [Nat.add_assoc, Nat.add_comm 1 i] using this
+
+theorem holds_append {m : Mem} {a : Ptr} {l1 l2 : List Byte} :
+    Holds m a (l1 ++ l2) ↔ Holds m a l1 ∧ Holds m (a + l1.length) l2 := by
+  induction l1 generalizing a with
+  | nil => simp [Holds.nil]
+  | cons b l ih =>
+    simp only [List.cons_append, holds_cons, ih, List.length_cons]
+    have e : a + 1 + l.length = a + (l.length + 1) := by omega
+    rw [e]; exact and_assoc.symm
+
+theorem Holds.mapped {m : Mem} {a : Ptr} {l : List Byte} (h : Holds m a l) : Mapped m a l.length := by
+  intro i hi; rw [h i hi]; simp [hi]
+
+theorem mapped_succ {m : Mem} {a : Ptr} {n : Nat} :
+    Mapped m a (n + 1) ↔ (m a).isSome ∧ Mapped m (a + 1) n := by
+  constructor
+  · intro h
+    refine ⟨by simpa using h 0 (by omega), ?_⟩
+    intro i hi
+    have := h (i + 1) (by omega)
+    simpa [Nat.add_assoc, Nat.add_comm 1 i] using this
+  · rintro ⟨h0, h1⟩ i hi
+    cases i with
+    | zero => simpa using h0
+    | succ i =>
+      have := h1 i (by omega)
+      simpa [Nat.add_assoc, Nat.add_comm 1 i] using this
+
+theorem SameOutside.refl (m : Mem) (a n : Nat) : SameOutside m m a n := fun _ _ => rfl
+
+/-! ## writes -/
+
+def upd (m : Mem) (a : Nat) (v : Byte) : Mem := fun j => if j = a then some v else m j
+
+theorem wr_upd {m : Mem} {a : Nat} {v : Byte} (h : (m a).isSome) : wr m a v = some (upd m a v) := wr_some h
+
+theorem mapped_upd {m : Mem} {a : Nat} {v : Byte} {p n : Nat} (h : Mapped m p n) : Mapped (upd m a v) p n := by
+  intro i hi
+  unfold upd
+  split
+  · rfl
+  · exact h i hi
+
+theorem memsetLoop_spec (v : Byte) (n : Nat) (m : Mem) (p : Nat) (h : Mapped m p n) :
+    ∃ m', memsetLoop v n m p = some m' ∧ Holds m' p (List.replicate n v) ∧ SameOutside m m' p n
+      ∧ SameMapping m m' := by
+  induction n generalizing m p with
+  | zero => exact ⟨m, rfl, Holds.nil _ _, SameOutside.refl _ _ _, fun _ => rfl⟩
+  | succ n ih =>
+    rw [mapped_succ] at h
+    obtain ⟨m', e, hh, ho, hm⟩ := ih (upd m p v) (p + 1) (mapped_upd h.2)
+    refine ⟨m', ?_, ?_, ?_, ?_⟩
+    · simp [memsetLoop, wr_upd h.1, e]
+    · rw [List.replicate_succ, holds_cons]
+      refine ⟨?_, hh⟩
+      rw [ho p (by omega)]; simp [upd]
+    · intro j hj
+      rw [ho j (by omega)]
+      simp only [upd]
+      rw [if_neg (by omega)]
+    · intro j
+      rw [hm j]; unfold upd; split
+      · subst_vars; simp [h.1]
+      · rfl
+
+
+@[simp] theorem upd_same (m : Mem) (a : Nat) (v : Byte) : upd m a v a = some v := by simp [upd]
+theorem upd_other (m : Mem) {a j : Nat} (v : Byte) (h : j ≠ a) : upd m a v j = m j := by simp [upd, h]
+
+/-! ## memchr -/
+
+theorem memchrLoop_absent (m : Mem) (d : Byte) (l : List Byte) (s : Nat) (hl : Holds m s l) (hd : d ∉ l) :
+    memchrLoop m d l.length s = some none := by
+  induction l generalizing s with
+  | nil => rfl
+  | cons b l ih =>
+    rw [holds_cons] at hl
+    simp only [List.mem_cons, not_or] at hd
+    have hb : ¬ b = d := fun e => hd.1 e.symm
+    simp [memchrLoop, hl.1, hb, ih (s + 1) hl.2 hd.2]
+
+theorem memchrLoop_found (m : Mem) (d : Byte) (p : List Byte) (s n : Nat) (hl : Holds m s (p ++ [d]))
+    (hd : d ∉ p) (hn : p.length < n) :
+    memchrLoop m d n s = some (some (s + p.length)) := by
+  induction p generalizing s n with
+  | nil =>
+    obtain ⟨n, rfl⟩ : ∃ k, n = k + 1 := ⟨n - 1, by simp at hn; omega⟩
+    simp only [List.nil_append, holds_cons] at hl
+    simp [memchrLoop, hl.1]
+  | cons b l ih =>
+    obtain ⟨n, rfl⟩ : ∃ k, n = k + 1 := ⟨n - 1, by simp at hn; omega⟩
+    simp only [List.cons_append, holds_cons] at hl
+    simp only [List.mem_cons, not_or] at hd
+    have hb : ¬ b = d := fun e => hd.1 e.symm
+    simp only [List.length_cons] at hn ⊢
+    simp [memchrLoop, hl.1, hb, ih (s + 1) n hl.2 hd.2 (by omega)]
+    omega
+
+/-! ## memrchr -/
+
+theorem memrchrLoop_absent (m : Mem) (d : Byte) (l : List Byte) (s : Nat) (hl : Holds m s l) (k : Nat)
+    (hk : k ≤ l.length) (hd : ∀ i, i < k → l[i]? ≠ some d) :
+    memrchrLoop m d k (s + k) = some none := by
+  induction k with
+  | zero => rfl
+  | succ k ih =>
+    have h1 := hl k (by omega)
+    have h2 := hd k (by omega)
+    have e : s + (k + 1) - 1 = s + k := by omega
+    simp only [memrchrLoop, e, rd_eq, h1]
+    cases hx : l[k]? with
+    | none => simp [List.getElem?_eq_none_iff] at hx; omega
+    | some x =>
+      have : ¬ x = d := by intro e; subst e; exact h2 hx
+      simp [this, ih (by omega) (fun i hi => hd i (by omega))]
+
+theorem memrchrLoop_found (m : Mem) (d : Byte) (l : List Byte) (s : Nat) (hl : Holds m s l) (j k : Nat)
+    (hj : l[j]? = some d) (hk : j + 1 + k ≤ l.length) (hd : ∀ i, j < i → i < j + 1 + k → l[i]? ≠ some d) :
+    memrchrLoop m d (j + 1 + k) (s + (j + 1 + k)) = some (some (s + j)) := by
+  induction k with
+  | zero =>
+    have h1 := hl j (by omega)
+    have e : s + (j + 1 + 0) - 1 = s + j := by omega
+    simp [memrchrLoop, e, h1, hj]
+  | succ k ih =>
+    have h1 := hl (j + 1 + k) (by omega)
+    have h2 := hd (j + 1 + k) (by omega) (by omega)
+    have e : s + (j + 1 + (k + 1)) - 1 = s + (j + 1 + k) := by omega
+    have e' : j + 1 + (k + 1) = (j + 1 + k) + 1 := by omega
+    rw [e']
+    simp only [memrchrLoop]
+    rw [show s + (j + 1 + k + 1) - 1 = s + (j + 1 + k) by omega]
+    simp only [rd_eq, h1]
+    cases hx : l[j + 1 + k]? with
+    | none => simp [List.getElem?_eq_none_iff] at hx; omega
+    | some x =>
+      have : ¬ x = d := by intro e; subst e; exact h2 hx
+      simp [this, ih (by omega) (fun i hi hi' => hd i hi (by omega))]
+
+/-! ## memcmp -/
+
+theorem diffAt_eq (m : Mem) (d s : Nat) (x y : Byte) (h1 : m d = some x) (h2 : m s = some y) :
+    diffAt m d s = some (ucInt x - ucInt y) := by
+  simp [diffAt, h1, h2]
+
+theorem memcmpLoop_same (m : Mem) (l : List Byte) (k d s : Nat) (hk : l.length = k + 1)
+    (hd : Holds m d l) (hs : Holds m s l) : memcmpLoop m k d s = some 0 := by
+  induction k generalizing l d s with
+  | zero =>
+    match l, hk with
+    | [x], _ =>
+      rw [holds_cons] at hd hs
+      simp [memcmpLoop, diffAt_eq m d s x x hd.1 hs.1]
+  | succ k ih =>
+    match l, hk with
+    | x :: l, hk =>
+      rw [holds_cons] at hd hs
+      simp [memcmpLoop, hd.1, hs.1, ih l (d + 1) (s + 1) (by simpa using hk) hd.2 hs.2]
+
+theorem memcmpLoop_diff (m : Mem) (p : List Byte) (x y : Byte) (k d s : Nat) (hk : p.length ≤ k)
+    (hd : Holds m d (p ++ [x])) (hs : Holds m s (p ++ [y])) (hxy : x ≠ y) :
+    memcmpLoop m k d s = some (ucInt x - ucInt y) := by
+  induction p generalizing k d s with
+  | nil =>
+    simp only [List.nil_append, holds_cons] at hd hs
+    cases k with
+    | zero => simp [memcmpLoop, diffAt_eq m d s x y hd.1 hs.1]
+    | succ k => simp [memcmpLoop, hd.1, hs.1, hxy, diffAt_eq m d s x y hd.1 hs.1]
+  | cons b p ih =>
+    simp only [List.cons_append, holds_cons] at hd hs
+    obtain ⟨k, rfl⟩ : ∃ j, k = j + 1 := ⟨k - 1, by simp at hk; omega⟩
+    simp [memcmpLoop, hd.1, hs.1, ih k (d + 1) (s + 1) (by simpa using hk) hd.2 hs.2]
+
+
+/-! ## loadN / storeL -/
+
+theorem loadN_spec (m : Mem) (c a : Nat) (h : Mapped m a c) :
+    ∃ w, loadN m c a = some w ∧ w.length = c ∧ ∀ i, i < c → w[i]? = m (a + i) := by
+  induction c generalizing a with
+  | zero => exact ⟨[], rfl, rfl, fun i hi => by omega⟩
+  | succ c ih =>
+    rw [mapped_succ] at h
+    obtain ⟨w, e, hl, hw⟩ := ih (a + 1) h.2
+    obtain ⟨b, hb⟩ := Option.isSome_iff_exists.mp h.1
+    refine ⟨b :: w, by simp [loadN, hb, e], by simp [hl], ?_⟩
+    intro i hi
+    cases i with
+    | zero => simp [hb]
+    | succ i =>
+      have := hw i (by omega)
+      simp only [List.getElem?_cons_succ, this]
+      congr 1; omega
+
+theorem storeL_spec (w : List Byte) (m : Mem) (a : Nat) (h : Mapped m a w.length) :
+    ∃ m', storeL w m a = some m' ∧ Holds m' a w ∧ SameOutside m m' a w.length ∧ SameMapping m m' := by
+  induction w generalizing m a with
+  | nil => exact ⟨m, rfl, Holds.nil _ _, SameOutside.refl _ _ _, fun _ => rfl⟩
+  | cons b w ih =>
+    simp only [List.length_cons] at h
+    rw [mapped_succ] at h
+    obtain ⟨m', e, hh, ho, hm⟩ := ih (upd m a b) (a + 1) (mapped_upd h.2)
+    refine ⟨m', by simp [storeL, wr_upd h.1, e], ?_, ?_, ?_⟩
+    · rw [holds_cons]
+      refine ⟨?_, hh⟩
+      rw [ho a (by omega)]; simp
+    · intro j hj
+      simp only [List.length_cons] at hj
+      rw [ho j (by omega), upd_other _ _ (by omega)]
+    · intro j
+      rw [hm j]; unfold upd; split
+      · subst_vars; simp [h.1]
+      · rfl
+
+/-! ## forward copy: the invariant shared by the byte loop and the word loops -/
+
+/-- the first `k` bytes have been copied from `s` to `d`; nothing else changed -/
+def CopiedFwd (m0 m : Mem) (d s k : Nat) : Prop :=
+  (∀ i, i < k → m (d + i) = m0 (s + i)) ∧ (∀ j, ¬(d ≤ j ∧ j < d + k) → m j = m0 j)
+
+theorem CopiedFwd.zero (m0 : Mem) (d s : Nat) : CopiedFwd m0 m0 d s 0 :=
+  ⟨fun i hi => by omega, fun _ _ => rfl⟩
+
+/-- copying the next chunk of `c` bytes — all loaded first, then all stored —
+keeps the invariant, provided the destination is not above the source inside
+the source range (`d ≤ s`) or the ranges are disjoint -/
+theorem copyChunk_fwd {m0 m : Mem} {d s n k : Nat} (c : Nat) (hov : d ≤ s ∨ s + n ≤ d)
+    (hms : Mapped m0 s n) (hmd : Mapped m0 d n) (inv : CopiedFwd m0 m d s k) (hk : k + c ≤ n) :
+    ∃ w m', loadN m c (s + k) = some w ∧ storeL w m (d + k) = some m' ∧ CopiedFwd m0 m' d s (k + c) := by
+  have hsrc : ∀ i, i < c → m (s + k + i) = m0 (s + k + i) := by
+    intro i hi; apply inv.2; omega
+  have hmap : Mapped m (s + k) c := by
+    intro i hi; rw [hsrc i hi]
+    have := hms (k + i) (by omega); rwa [← Nat.add_assoc] at this
+  obtain ⟨w, e, hl, hw⟩ := loadN_spec m c (s + k) hmap
+  have hmapd : Mapped m (d + k) w.length := by
+    intro i hi; rw [hl] at hi
+    rw [inv.2 (d + k + i) (by omega)]
+    have := hmd (k + i) (by omega); rwa [← Nat.add_assoc] at this
+  obtain ⟨m', e', hh, ho, _⟩ := storeL_spec w m (d + k) hmapd
+  refine ⟨w, m', e, e', ?_, ?_⟩
+  · intro i hi
+    by_cases hik : i < k
+    · rw [ho (d + i) (by omega)]; exact inv.1 i hik
+    · have h1 := hh (i - k) (by omega)
+      have e1 : d + k + (i - k) = d + i := by omega
+      rw [e1] at h1
+      rw [h1, hw (i - k) (by omega), hsrc (i - k) (by omega)]
+      congr 1; omega
+  · intro j hj
+    rw [ho j (by omega)]; apply inv.2; omega
+
+theorem copyWord_fwd {m0 m : Mem} {d s n k : Nat} (hov : d ≤ s ∨ s + n ≤ d)
+    (hms : Mapped m0 s n) (hmd : Mapped m0 d n) (inv : CopiedFwd m0 m d s k) (hk : k + 8 ≤ n) :
+    ∃ m', copyWord m (d + k) (s + k) = some m' ∧ CopiedFwd m0 m' d s (k + 8) := by
+  obtain ⟨w, m', e, e', h⟩ := copyChunk_fwd 8 hov hms hmd inv hk
+  exact ⟨m', by simp [copyWord, BLOCK_SZ, e, e'], h⟩
+
+theorem copyByte_fwd {m0 m : Mem} {d s n k : Nat} (hov : d ≤ s ∨ s + n ≤ d)
+    (hms : Mapped m0 s n) (hmd : Mapped m0 d n) (inv : CopiedFwd m0 m d s k) (hk : k + 1 ≤ n) :
+    ∃ b m', m (s + k) = some b ∧ wr m (d + k) b = some m' ∧ CopiedFwd m0 m' d s (k + 1) := by
+  obtain ⟨w, m', e, e', h⟩ := copyChunk_fwd 1 hov hms hmd inv hk
+  simp only [loadN, rd_eq] at e
+  cases hb : m (s + k) with
+  | none => simp [hb] at e
+  | some b =>
+    simp [hb] at e; subst e
+    simp only [storeL] at e'
+    cases hw : wr m (d + k) b with
+    | none => simp [hw] at e'
+    | some m1 => simp [hw] at e'; subst e'; exact ⟨b, m1, rfl, hw, h⟩
+
+theorem memcpyBytes_fwd {m0 : Mem} {d s n : Nat} (hov : d ≤ s ∨ s + n ≤ d)
+    (hms : Mapped m0 s n) (hmd : Mapped m0 d n) (r : Nat) (m : Mem) (k : Nat)
+    (inv : CopiedFwd m0 m d s k) (hk : k + r = n) :
+    ∃ m', memcpyBytes r m (d + k) (s + k) = some m' ∧ CopiedFwd m0 m' d s n := by
+  induction r generalizing m k with
+  | zero => exact ⟨m, rfl, by rw [← hk]; exact inv⟩
+  | succ r ih =>
+    obtain ⟨b, m1, hb, hw, inv1⟩ := copyByte_fwd hov hms hmd inv (by omega)
+    obtain ⟨m', e, h⟩ := ih m1 (k + 1) inv1 (by omega)
+    exact ⟨m', by simp [memcpyBytes, hb, hw]; simpa [Nat.add_assoc] using e, h⟩
+
+theorem memcpyLoop4_fwd {m0 : Mem} {d s n : Nat} (hov : d ≤ s ∨ s + n ≤ d)
+    (hms : Mapped m0 s n) (hmd : Mapped m0 d n) (fuel : Nat) (m : Mem) (r k : Nat)
+    (inv : CopiedFwd m0 m d s k) (hk : k + r = n) (hf : r < fuel) :
+    ∃ m' r' k', memcpyLoop4 fuel m r (d + k) (s + k) = some (m', r', d + k', s + k') ∧
+      CopiedFwd m0 m' d s k' ∧ k' + r' = n ∧ r' < 32 := by
+  induction fuel generalizing m r k with
+  | zero => omega
+  | succ f ih =>
+    by_cases h32 : r ≥ 32
+    · obtain ⟨m1, e1, i1⟩ := copyWord_fwd hov hms hmd inv (by omega)
+      obtain ⟨m2, e2, i2⟩ := copyWord_fwd hov hms hmd i1 (by omega)
+      obtain ⟨m3, e3, i3⟩ := copyWord_fwd hov hms hmd i2 (by omega)
+      obtain ⟨m4, e4, i4⟩ := copyWord_fwd hov hms hmd i3 (by omega)
+      obtain ⟨m', r', k', e, h⟩ := ih m4 (r - 32) (k + 8 + 8 + 8 + 8) i4 (by omega) (by omega)
+      refine ⟨m', r', k', ?_, h⟩
+      simp only [Nat.add_assoc] at e1 e2 e3 e4 e
+      simp [memcpyLoop4, BLOCK_SZ, h32, e1, e2, e3, e4, Nat.add_assoc, e]
+    · exact ⟨m, r, k, by simp [memcpyLoop4, BLOCK_SZ, h32], inv, hk, by omega⟩
+
+theorem memcpyLoop1_fwd {m0 : Mem} {d s n : Nat} (hov : d ≤ s ∨ s + n ≤ d)
+    (hms : Mapped m0 s n) (hmd : Mapped m0 d n) (fuel : Nat) (m : Mem) (r k : Nat)
+    (inv : CopiedFwd m0 m d s k) (hk : k + r = n) (hf : r < fuel) :
+    ∃ m' r' k', memcpyLoop1 fuel m r (d + k) (s + k) = some (m', r', d + k', s + k') ∧
+      CopiedFwd m0 m' d s k' ∧ k' + r' = n ∧ r' < 8 := by
+  induction fuel generalizing m r k with
+  | zero => omega
+  | succ f ih =>
+    by_cases h8 : r ≥ 8
+    · obtain ⟨m1, e1, i1⟩ := copyWord_fwd hov hms hmd inv (by omega)
+      obtain ⟨m', r', k', e, h⟩ := ih m1 (r - 8) (k + 8) i1 (by omega) (by omega)
+      refine ⟨m', r', k', ?_, h⟩
+      simp [memcpyLoop1, BLOCK_SZ, h8, e1, Nat.add_assoc, e]
+    · exact ⟨m, r, k, by simp [memcpyLoop1, BLOCK_SZ, h8], inv, hk, by omega⟩
+
+/-- memcpy copies correctly whenever the destination does not start inside the
+source above its beginning: disjoint ranges (ISO C) **and** `d ≤ s` with any
+overlap (what memmove relies on) -/
+theorem memcpy_fwd (m0 : Mem) (d s n : Nat) (hov : d ≤ s ∨ s + n ≤ d)
+    (hms : Mapped m0 s n) (hmd : Mapped m0 d n) :
+    ∃ m', memcpy m0 d s n = some (m', d) ∧ CopiedFwd m0 m' d s n := by
+  unfold memcpy
+  split
+  · obtain ⟨m1, r1, k1, e1, i1, hk1, _⟩ :=
+      memcpyLoop4_fwd hov hms hmd (n + 1) m0 n 0 (CopiedFwd.zero m0 d s) (by omega) (by omega)
+    obtain ⟨m2, r2, k2, e2, i2, hk2, _⟩ :=
+      memcpyLoop1_fwd hov hms hmd (r1 + 1) m1 r1 k1 i1 hk1 (by omega)
+    obtain ⟨m3, e3, i3⟩ := memcpyBytes_fwd hov hms hmd r2 m2 k2 i2 hk2
+    simp only [Nat.add_zero] at e1
+    exact ⟨m3, by simp [e1, e2, e3], i3⟩
+  · obtain ⟨m3, e3, i3⟩ := memcpyBytes_fwd hov hms hmd n m0 0 (CopiedFwd.zero m0 d s) (by omega)
+    simp only [Nat.add_zero] at e3
+    exact ⟨m3, by simp [e3], i3⟩
+
+
+/-! ## backward copy (memmove) -/
+
+/-- the last `k` of `n` bytes have been copied; nothing else changed -/
+def CopiedBwd (m0 m : Mem) (d s n k : Nat) : Prop :=
+  (∀ i, n - k ≤ i → i < n → m (d + i) = m0 (s + i)) ∧
+  (∀ j, ¬(d + (n - k) ≤ j ∧ j < d + n) → m j = m0 j)
+
+theorem memmoveBack_spec {m0 : Mem} {d s n : Nat} (hsd : s ≤ d)
+    (hms : Mapped m0 s n) (hmd : Mapped m0 d n) (r : Nat) (m : Mem) (k : Nat)
+    (inv : CopiedBwd m0 m d s n k) (hk : k + r = n) :
+    ∃ m', memmoveBack r m (d + r) (s + r) = some m' ∧ CopiedBwd m0 m' d s n n := by
+  induction r generalizing m k with
+  | zero =>
+    have : k = n := by omega
+    subst this; exact ⟨m, rfl, inv⟩
+  | succ r ih =>
+    have hs : m (s + r) = m0 (s + r) := inv.2 _ (by omega)
+    have hd : m (d + r) = m0 (d + r) := inv.2 _ (by omega)
+    obtain ⟨b, hb⟩ := Option.isSome_iff_exists.mp (hms r (by omega))
+    have hdm : (m (d + r)).isSome := by rw [hd]; exact hmd r (by omega)
+    have inv1 : CopiedBwd m0 (upd m (d + r) b) d s n (k + 1) := by
+      constructor
+      · intro i h1 h2
+        by_cases hi : i = r
+        · subst hi; simp [hb]
+        · rw [upd_other _ _ (by omega)]; exact inv.1 i (by omega) h2
+      · intro j hj
+        rw [upd_other _ _ (by omega)]; exact inv.2 j (by omega)
+    obtain ⟨m', e, h⟩ := ih (upd m (d + r) b) (k + 1) inv1 (by omega)
+    refine ⟨m', ?_, h⟩
+    have e1 : s + (r + 1) - 1 = s + r := by omega
+    have e2 : d + (r + 1) - 1 = d + r := by omega
+    simp [memmoveBack, e1, e2, hs, hb, wr_upd hdm, e]
+
+theorem CopiedBwd.zero (m0 : Mem) (d s n : Nat) : CopiedBwd m0 m0 d s n 0 :=
+  ⟨fun i h1 h2 => by omega, fun _ _ => rfl⟩
+
+/-- what every copy routine must establish: destination = old source, rest untouched -/
+def CopyDone (m0 m' : Mem) (d s n : Nat) : Prop :=
+  (∀ i, i < n → m' (d + i) = m0 (s + i)) ∧ SameOutside m0 m' d n
+
+theorem CopiedFwd.done {m0 m' : Mem} {d s n : Nat} (h : CopiedFwd m0 m' d s n) : CopyDone m0 m' d s n := h
+
+theorem CopiedBwd.done {m0 m' : Mem} {d s n : Nat} (h : CopiedBwd m0 m' d s n n) : CopyDone m0 m' d s n := by
+  refine ⟨fun i hi => h.1 i (by omega) hi, fun j hj => h.2 j (by omega)⟩
+
+theorem CopyDone.holds {m0 m' : Mem} {d s : Nat} {src : List Byte} (h : CopyDone m0 m' d s src.length)
+    (hs : Holds m0 s src) : Holds m' d src := by
+  intro i hi; rw [h.1 i hi]; exact hs i hi
+
+theorem memmove_done (m0 : Mem) (d s n : Nat) (hms : Mapped m0 s n) (hmd : Mapped m0 d n) :
+    ∃ m', memmove m0 d s n = some (m', d) ∧ CopyDone m0 m' d s n := by
+  unfold memmove
+  split
+  · next h =>
+    obtain ⟨m', e, hh⟩ := memmoveBack_spec (by omega) hms hmd n m0 0 (CopiedBwd.zero m0 d s n) (by omega)
+    exact ⟨m', by simp [e], hh.done⟩
+  · next h =>
+    obtain ⟨m', e, hh⟩ := memcpy_fwd m0 d s n (by omega) hms hmd
+    exact ⟨m', e, hh.done⟩
 
 end Igris.C08
